@@ -135,9 +135,9 @@ func (c *raceC) Gen(r *rand.Rand, tier string, emit func(string)) {
 type nullObserver struct{ n int }
 
 func (o *nullObserver) WriteString(line string) (int, error) { o.n++; return len(line), nil }
-func (o *nullObserver) SetLines(lines []string)               { o.n += len(lines) }
-func (o *nullObserver) GetUniqueID() string                   { return fmt.Sprintf("obs%p", o) }
-func (o *nullObserver) GetTailLength() int                    { return 20 }
+func (o *nullObserver) SetLines(lines []string)              { o.n += len(lines) }
+func (o *nullObserver) GetUniqueID() string                  { return fmt.Sprintf("obs%p", o) }
+func (o *nullObserver) GetTailLength() int                   { return 20 }
 
 // RaceWorker is the body of the `raceworker` subcommand (race-detector build).
 func RaceWorker(args []string) {
